@@ -47,6 +47,7 @@ struct rank_api {
 	void (*random_lib_lp_init)(lp_id_t, struct rng_ctx *);
 	void (*msg_queue_global_init)(void);
 	void (*msg_queue_init)(void);
+	void (*msg_queue_fini)(void);
 	void (*msg_queue_insert)(struct lp_msg *);
 	struct lp_msg *(*msg_queue_extract)(void);
 	simtime_t (*msg_queue_time_peek)(void);
